@@ -19,7 +19,7 @@ RULE = ("builder calls enumerated over literal lists (length 0..5 quick / 0..7 t
 ASSUMPTIONS = ["the truth-table engine (self-checked against a naive evaluator at start-up)",
                "mapping atoms are read through the group's own index->variable call (judged by C11)"]
 REQUIRED = ["cnf_builder_calls", "opb_builder_calls", "mapping_calls", "normalize_calls",
-            "generator_arguments", "range_arguments", "tuple_arguments"]
+            "generator_arguments", "range_arguments", "tuple_arguments", "wide_parity_calls", "wide_binary_mappings"]
 
 OPS = {"<=": operator.le, ">=": operator.ge, "<": operator.lt, ">": operator.gt,
        "==": operator.eq, "!=": operator.ne}
@@ -365,8 +365,100 @@ def workload(tier, seed):
                         masks = sorted({r.getrandbits(n * m) for _ in range(40 if tier == "quick" else 300)})
                     for mask in masks:
                         yield "unary_mapping", {"cls": cls, "n": n, "m": m, "edgemask": mask, "offset": 0}
+        for L in (9, 10) if tier == "quick" else (9, 10, 11):
+            yield "wide", {"cls": cls, "L": L}
+        for m in (257, 300, 513, 1025) if tier == "quick" else (256, 257, 300, 512, 513, 1000, 1024, 1025, 2049):
+            yield "binary_mapping_wide", {"cls": cls, "m": m}
         for n in range(1, 4):
             for m in range(1, 9 if tier == "quick" else 12):
                 if n * (m - 1).bit_length() <= 12:
                     for offset in (0, 2):
                         yield "binary_mapping", {"cls": cls, "n": n, "m": m, "offset": offset}
+
+
+def case_wide(ctx, cls, L):
+    """Parity and cardinality constraints on 9-11 literals (where byte-level tricks stop working)."""
+    tt.selfcheck()
+    K = classes()[cls]
+    r = ctx.rng("c04wide", cls, L)
+    n = L + 1
+    base = list(range(1, L + 1))
+    pats = [list(base), [-v for v in base], [v if i % 2 else -v for i, v in enumerate(base)]]
+    for _ in range(3):
+        pats.append([r.choice([1, -1]) * v for v in r.sample(range(1, n + 1), L)])
+    for lits in pats:
+        for const in (0, 1):
+            F = K()
+            if call_builder(ctx, cls + ".add_parity", F, F.add_parity, list(lits), const):
+                ctx.count(cls.lower() + "_builder_calls")
+                ctx.count("wide_parity_calls")
+                judge(ctx, cls + ".add_parity", F, n, lambda a, c=const: nsat(a, lits) % 2 == c,
+                      ("parity", cls, tuple(lits), "list", repr(const)), "%s.add_parity(%r, %r)" % (cls, lits, const))
+        for op, const in (("<=", 1), (">=", L - 1), ("==", L // 2) if L <= 9 else ("==", 1), ("!=", L), (">", L - 2), ("<", 2)):
+            pred = (lambda a, c=const, o=OPS[op]: o(nsat(a, lits), c))
+            F = K()
+            if cls == "CNF":
+                ok = call_builder(ctx, "CNF.add_linear", F, F.add_linear, list(lits), op, const)
+            elif op == "!=":
+                ok = call_builder(ctx, "OPB.cardinality_neq", F, F.cardinality_neq, list(lits), const)
+            else:
+                ok = call_builder(ctx, "OPB.add_constraint", F, F.add_constraint, [(1, l) for l in lits] + [op, const])
+            if ok:
+                ctx.count(cls.lower() + "_builder_calls")
+                judge(ctx, "%s.linear[%s]" % (cls, op), F, n, pred, ("wide-lin", cls, tuple(lits), op, const),
+                      "%s linear(%r, %r, %d)" % (cls, lits, op, const))
+
+
+def case_binary_mapping_wide(ctx, cls, m):
+    """Binary mappings with 9 and more bits per element: sampled assignments against the functional condition."""
+    from ..refmodels.names import eval_formula
+    K = classes()[cls]
+    r = ctx.rng("c04binwide", cls, m)
+    n = 2
+    k = (m - 1).bit_length()
+    combos = [("complete",), ("complete", "injective")]
+    if m <= 300 and cls == "CNF":
+        combos.append(("complete", "nondecreasing"))           # C(m,2) clauses: affordable for the smaller ranges only
+    for conds in combos:
+        F = K()
+        st, f = ctx.call(F.new_binary_mapping, n, m)
+        if st == "exc":
+            ctx.violation("mapping:create:raises:" + type(f).__name__, "new_binary_mapping(%d,%d) raised %r" % (n, m, f))
+            return
+        if F.number_of_variables() != n * k:
+            ctx.violation("mapping:binary:numvar", "binary mapping %d->%d has %d variables, expected %d" % (n, m, F.number_of_variables(), n * k))
+            return
+        bitvar = {(i, b): f(i, b) for i in (1, 2) for b in range(k)}
+        ok = True
+        for c in conds:
+            if not call_builder(ctx, "force_%s_mapping[binary,%s]" % (c, cls), F, getattr(F, "force_%s_mapping" % c), f):
+                ok = False
+        if not ok:
+            continue
+        ctx.count("mapping_calls")
+        ctx.count("wide_binary_mappings")
+        interesting = sorted({0, 1, 2, 3, m - 2, m - 1, m, m + 1, (1 << k) - 1, (1 << k) - 2, 129, 258, 1 << (k - 1), (1 << (k - 1)) - 1,
+                              int(bin(m - 1)[2:].zfill(k)[::-1], 2), int(bin(min(m, (1 << k) - 1))[2:].zfill(k)[::-1], 2)} | {r.randrange(1 << k) for _ in range(4)})
+        interesting = [v for v in interesting if 0 <= v < (1 << k)]
+        if "nondecreasing" in conds:
+            interesting = interesting[:3] + interesting[-5:]
+        bad = None
+        for v1 in interesting:
+            for v2 in interesting:
+                t = {bitvar[(1, b)] for b in range(k) if (v1 >> b) & 1} | {bitvar[(2, b)] for b in range(k) if (v2 >> b) & 1}
+                exp = v1 < m and v2 < m
+                if "injective" in conds:
+                    exp = exp and v1 != v2
+                if "nondecreasing" in conds:
+                    exp = exp and v1 <= v2
+                if eval_formula(F, t) != exp:
+                    bad = (v1, v2, exp)
+                    break
+            if bad:
+                break
+        if bad:
+            ctx.violation("force_%s_mapping[binary,wide]:models" % "+".join(conds),
+                          "%s binary mapping %d->%d %r: elements mapped to (%d,%d) should %s the constraints"
+                          % (cls, n, m, conds, bad[0], bad[1], "satisfy" if bad[2] else "violate"))
+        ctx.judged(("bmap-wide", cls, m, conds), nontrivial=True, sample={"binary_mapping": [n, m], "force": conds, "bits": k,
+                                                                         "value_pairs_tried": len(interesting) ** 2})
